@@ -5,6 +5,8 @@
   textbook Levenshtein recursion (GoFlags/Lemmas/EditDistance.lean, 6 lines).
 -/
 import GoFlags.Lemmas.Closest
+import GoFlags.Lemmas.Sort
+import GoFlags.Parse
 
 namespace GoFlags.C20
 open GoFlags Bytes
@@ -85,5 +87,57 @@ theorem closest_nil (w : Bytes) : closestChoice w [] = ([], 0) := rfl
 example : levRunes [0x78] [0x61, 0x62, 0x63] = 3 := by decide
 example : levRunes [0xE9] [0x65] = 1 := by decide
 example : levRunes [0x6B, 0x69, 0x74, 0x74, 0x65, 0x6E] [0x73, 0x69, 0x74, 0x74, 0x69, 0x6E, 0x67] = 3 := by decide
+
+/-- **Suggest or enumerate — the threshold.**  For an unrecognised word the message suggests the
+    nearest visible command exactly when twice the distance is less than the length of that name
+    (`float32(l)/float32(len(c)) < 0.5`, with no name at all: no suggestion); otherwise it
+    enumerates the sorted visible names.  The error type is ErrUnknownCommand either way. -/
+theorem unknown_command_message (s : PS) (first : Bytes) (rest : List Bytes) (h : s.retargs = first :: rest) :
+    let names := sortedVisibleNames s.P s.cmd
+    let c := (closestChoice first names).1
+    let l := (closestChoice first names).2
+    estimateCommand s = .flags .unknownCommand
+      (if c.length ≠ 0 && 2 * l < c.length then
+         B "Unknown command `" ++ first ++ B "'" ++ B ", did you mean `" ++ c ++ B "'?"
+       else match names with
+         | [] => B "Unknown command `" ++ first ++ B "'"
+         | [one] => B "Unknown command `" ++ first ++ B "'" ++ B ". You should use the " ++ one ++ B " command"
+         | many => B "Unknown command `" ++ first ++ B "'" ++ B ". Please specify one command of: " ++ orList many) := by
+  simp only
+  unfold estimateCommand
+  simp only [h]
+  split <;> rfl
+
+/-- a missing command: ErrCommandRequired, enumerating the sorted visible names -/
+theorem missing_command_message (s : PS) (h : s.retargs = []) :
+    estimateCommand s = .flags .commandRequired
+      (match sortedVisibleNames s.P s.cmd with
+       | [] => []
+       | [one] => B "Please specify the " ++ one ++ B " command"
+       | many => B "Please specify one command of: " ++ orList many) := by
+  unfold estimateCommand
+  simp only [h]
+  rfl
+
+/-- **Hidden commands are never suggested or enumerated**: the names the diagnostics draw from are
+    names of non-hidden subcommands of the current command, all of them, … -/
+theorem diagnostic_names_are_the_visible_ones (P : Parser) (ci : Nat) (n : Bytes) :
+    n ∈ sortedVisibleNames P ci ↔ ∃ s ∈ P.subs ci, (P.cmd s).hidden = false ∧ (P.cmd s).name = n := by
+  unfold sortedVisibleNames
+  rw [(sortStrings_perm' _).mem_iff]
+  simp [List.mem_map, List.mem_filter, and_assoc]
+
+/-- … in sorted order -/
+theorem diagnostic_names_are_sorted (P : Parser) (ci : Nat) : SortedB (sortedVisibleNames P ci) :=
+  sortStrings_sorted _
+
+/-- the suggested name is a visible command at minimum distance from the word -/
+theorem suggestion_is_nearest_visible (P : Parser) (ci : Nat) (w : Bytes) (hne : sortedVisibleNames P ci ≠ []) :
+    let r := closestChoice w (sortedVisibleNames P ci)
+    (∃ s ∈ P.subs ci, (P.cmd s).hidden = false ∧ (P.cmd s).name = r.1) ∧
+    r.2 = levenshtein w r.1 ∧ ∀ m ∈ sortedVisibleNames P ci, r.2 ≤ levenshtein w m := by
+  have h := closest_is_minimum w (sortedVisibleNames P ci) hne
+  simp only at h ⊢
+  exact ⟨(diagnostic_names_are_the_visible_ones P ci _).mp h.1, h.2.1, h.2.2⟩
 
 end GoFlags.C20
